@@ -117,6 +117,22 @@ pub fn genlib(args: &[String]) -> i32 {
         third.strip_prefix("com.palantir".to_string()).build_crate("other-product", "9.9.9");
         let _ = third.generate_files(ir, format!("{}-b", scratch_dir));
     }
+    // entry "lib3": the output directory already holds an older generation of the same
+    // definition under other options (a build script re-run after a flag flip)
+    if std::env::var("VERIF_STALE_OUTPUT").is_ok() {
+        let mut other = conjure_codegen::Config::new();
+        other.exhaustive(!b(&args[2])).serialize_empty_collections(!b(&args[3]));
+        if let Some(p) = opt(&args[4]) {
+            other.strip_prefix(p);
+        }
+        if let (Some(name), Some(pv)) = (&name, &pv) {
+            other.build_crate(name, cv.as_deref().unwrap_or(pv));
+        }
+        if let Some(pv) = &pv {
+            other.version(pv.clone());
+        }
+        let _ = other.generate_files(ir, out);
+    }
     match c.generate_files(ir, out) {
         Ok(()) => 0,
         Err(e) => {
@@ -209,6 +225,9 @@ fn generate(entry: &str, ir: &Path, cfg: &Cfg, seed: u64, work: &Path, tag: &str
     } else {
         Command::new(&exe)
     };
+    if entry == "lib3" {
+        cmd.env("VERIF_STALE_OUTPUT", "1");
+    }
     if entry == "lib2" {
         cmd.env("VERIF_PRIOR_GENERATION", work.join(format!("prior-{}-s{}", tag, seed)));
     }
@@ -402,7 +421,7 @@ pub fn run(args: &Args) -> Report {
             let mut reference: Option<(String, BTreeMap<String, Vec<u8>>)> = None;
             let mut probes = BTreeSet::new();
             for (si, seed) in seeds.iter().enumerate() {
-                for entry in ["lib", "cli", "lib2"] {
+                for entry in ["lib", "cli", "lib2", "lib3"] {
                     r.states += 1;
                     r.evaluations += 1;
                     r.transitions += 1;
@@ -438,7 +457,7 @@ pub fn run(args: &Args) -> Report {
                         Some((what, t)) => match diff(t, &run.tree) {
                             None => r.outcome("identical-tree"),
                             Some(d) => {
-                                let kind = if what.starts_with(&format!("{} ", entry)) { "differs-across-hash-seeds" } else if entry == "lib2" { "library-after-another-generation-in-the-same-process" } else { "library-vs-cli" };
+                                let kind = if what.starts_with(&format!("{} ", entry)) { "differs-across-hash-seeds" } else if entry == "lib2" { "library-after-another-generation-in-the-same-process" } else if entry == "lib3" { "generation-over-an-older-tree" } else { "library-vs-cli" };
                                 r.violation(format!("C20|{}|{}|{}", pname, kind, cfg.text()), format!("{} [{}]: output of {} seed {} differs from {}: {}", pname, cfg.text(), entry, seed, what, d), case);
                             }
                         },
